@@ -9,6 +9,7 @@ GLOB="${1:-*}"
 WORK=$(mktemp -d "$BASE/benign-XXXXXX"); trap 'rm -rf "$WORK"' EXIT
 SNAP="$WORK/snap"; mkdir -p "$SNAP"; rsync -a --exclude .git /repo/ "$SNAP"/
 PROPS=$(python3 -c "import json; print(' '.join(c['property_id'] for c in json.load(open('$VERIF/MANIFEST.json'))['checks']))")
+[ -n "${VERIF_BENIGN_PROPS:-}" ] && PROPS="$VERIF_BENIGN_PROPS"   # optional: only these properties
 export VERIF SNAP WORK PROPS
 one() {
   patch="$1"
